@@ -194,7 +194,7 @@ REQUIRED_PROBES = {
     "C12": ("read_after_fault:get", "read_after_fault:get_alphabet", "rejected_after_valid_prefix"),
     "C07": ("alphabet_reads", "alphabet_strings_valence_checked"),
     "C06": ("strict_at_capacity", "strict_one_over", "strict_one_below", "discriminating_query"),
-    "C19": ("window_switches", "overlap"),
+    "C19": ("window_switches", "overlap", "double_miss_runs", "double_augmenting_path_runs"),
 }
 
 
